@@ -70,12 +70,14 @@ exporter emits a ghost parent as `merge :1` (T2 graph + igraph, oracle parents).
 iterating the tags sorted.
 
 Families (classifiers below, all computed from the abstract history): known — export-rename-chain-or-swap,
-plain-export-directory-rename-leaves-children-behind, import-new-entry-at-path-vacated-by-rename,
+plain-export-directory-rename-leaves-children-behind,
 plain-export-directory-renamed-onto-deleted-path-drops-the-delete,
 rich-import-change-below-directory-renamed-in-same-commit, rich-import-directory-rename-in-a-merge-revision;
-new (reported) — committer-email-only-gains-leading-blank,
-import-rename-to-path-below-own-old-path-does-not-terminate (`R sub sub/d/f`: the importer gives the directory it
-creates at `sub` the renamed file's id; CHKInventory.create_by_apply_delta then loops and allocates without bound).
+found here and fixed by 1e7b782 (plain violations if they return; each checked by reverting the hunk):
+committer-email-only-gains-leading-blank, import-new-entry-at-path-vacated-by-rename (the apply correspondence now
+covers `R a b` + `M a`), import-rename-to-path-below-own-old-path-does-not-terminate (`R sub sub/d/f`: the importer
+gave the directory it creates at `sub` the renamed file's id; CHKInventory.create_by_apply_delta then looped and
+allocated without bound).
 Every import therefore runs in a forked child with a CPU-time limit (30 s of CPU, not wall time) and an
 address-space limit (3 GB): a child killed by a limit is "does not terminate" (a violation with the commit it
 was processing); a wall-clock timeout without CPU exhaustion is an infrastructure error (exit 2).  Fixed and therefore plain violations if they
@@ -334,12 +336,6 @@ def classify_tree_diff(old_ents, new_ents, plain=True):
     olds = {o for o, _n in own}
     if any(n in olds for _o, n in own):
         fams.add("export-rename-chain-or-swap")
-    # importer: `R a b` followed by `M a` for a NEW entry at the vacated path: the importer takes the path's
-    # file id from the basis inventory, so the modification replaces the renamed entry (both formats)
-    renamed_from = {old_ents[f][0] for f, e in new_ents.items()
-                    if f in old_ents and old_ents[f][1] != e[1] and (not e[2] or not plain)}
-    if any(f not in old_ents and e[0] in renamed_from and (not e[2] or not plain) for f, e in new_ents.items()):
-        fams.add("import-new-entry-at-path-vacated-by-rename")
     # plain format: a directory renamed onto the path of a deleted entry consumes that delete without
     # emitting it (the directory itself is not exported), so the deleted entry survives
     if plain:
@@ -632,10 +628,7 @@ def roundtrip(sc, plain, out):
             inherited = [fams_by_rid[a] for a in order if a != rid and a in c40._anc(by_id, rid) and fams_by_rid.get(a)]
             fam = sorted(inherited[0])[0] if inherited else (sorted(fams)[0] if fams else None)
         if res["status"] == "killed":
-            # a rename to a path below the entry's own old path: the importer gives the directory it creates
-            # there the renamed entry's file id; applying that inventory delta never ends
-            below = rid is not None and any(fc[0] == "R" and fc[2].startswith(fc[1] + "/") for fc in real_cmds.get(rid, []))
-            fam = "import-rename-to-path-below-own-old-path-does-not-terminate" if below else None
+            fam = None          # non-termination is never attributed to a known family
         out["viol"].append((case, "fast-import of the exported %s stream %s at commit %s: %s" % (
             fmt, what_e, rid.decode() if rid else "?", detail), fam))
         cnt["import-%s:%s:%s" % ("raises" if res["status"] == "raised" else "killed", fmt, fam)] += 1
@@ -682,8 +675,6 @@ def roundtrip(sc, plain, out):
                 out["viol"].append((case, "message of %s changed: %r -> %r" % (rid.decode(), r1.message, r2.message), None))
             if r1.committer != r2.committer:
                 fam = None
-                if re.fullmatch(r"<[^<>]+>", r1.committer) and r2.committer == " " + r1.committer:
-                    fam = "committer-email-only-gains-leading-blank"
                 out["viol"].append((case, "committer of %s changed: %r -> %r" % (rid.decode(), r1.committer, r2.committer), fam))
                 cnt["committer-changed:%s" % fam] += 1
             # the model's committer round trip (split, `Name <email> date` line, parse, join)
@@ -752,11 +743,6 @@ def roundtrip(sc, plain, out):
                 # a rename whose target is another rename's source: the importer resolves paths against the
                 # basis inventory and its pending changes; not modelled (the exporter must not emit this)
                 cnt["apply-not-compared:rename-chain-in-stream"] += 1
-                continue
-            if any(fc[0] == "M" and fc[1] in srcs for fc in real):
-                # `R a b` + `M a`: the importer resolves `a` to the renamed entry's file id (reported by the
-                # oracle under import-new-entry-at-path-vacated-by-rename); path space has no file ids
-                cnt["apply-not-compared:modify-at-renamed-source"] += 1
                 continue
             targets = [fc[2] if fc[0] == "R" else fc[1] for fc in real if fc[0] in "RM"]
             if any(b.startswith(t + "/") or t.startswith(b + "/") for t in targets for b in base):
